@@ -246,10 +246,10 @@ func RunIO(w *World, idx int) {
 		if kind != "read" || len(faults) > 0 {
 			w.readSweep()
 		}
-		if r.Chance(15) {
+		if r.Chance(15) || (w.Prop == "C01" && r.Chance(50)) {
 			w.RangeCheck()
 		}
-		if r.Chance(6) {
+		if r.Chance(6) || (w.Prop == "C16" && r.Chance(40)) {
 			w.ResizeOp()
 		}
 		if r.Chance(8) {
